@@ -18,6 +18,7 @@ package scorch
 
 import (
 	"sort"
+	"sync/atomic"
 
 	index "github.com/blevesearch/bleve_index_api"
 )
@@ -37,4 +38,23 @@ func (s *Scorch) SimEligibleForRemoval() []uint64 {
 	s.rootLock.RLock()
 	defer s.rootLock.RUnlock()
 	return append([]uint64(nil), s.eligibleForRemoval...)
+}
+
+// simUpdateSizeLOCKED is updateSizeLOCKED with the fields visited in sorted
+// order: every visit takes the field's lock, so the map's random iteration
+// order would otherwise leak into the schedule of a simulated run.
+func (c *cachedDocs) simUpdateSizeLOCKED() {
+	keys := make([]string, 0, len(c.cache))
+	for k := range c.cache {
+		keys = append(keys, k)
+	}
+	sort.Strings(keys)
+	sizeInBytes := 0
+	for _, k := range keys {
+		sizeInBytes += len(k)
+		if v := c.cache[k]; v != nil {
+			sizeInBytes += v.Size()
+		}
+	}
+	atomic.StoreUint64(&c.size, uint64(sizeInBytes))
 }
